@@ -35,7 +35,7 @@ def run(ctx, eng):
            'STREAM_OPEN[self.state_machine.state]', node=fo.node)
     fc = eng.m.func('stream.H2Stream.closed')
     ok = any(p.exit == 'return' and p.value[0] == 'eq' and
-             {T.show(p.value[1]), T.show(p.value[2])} ==
+             {cm.show0(p.value[1]), cm.show0(p.value[2])} ==
              {'StreamState.CLOSED', 'self.state_machine.state'}
              for p in eng.I.run(fc))
     ctx.ob('FLOW.open', fc.qual, 'closed iff state CLOSED', ok,
@@ -57,7 +57,7 @@ def run(ctx, eng):
         seen_raise = False
         bad = []
         for p in paths:
-            conds = [T.show(e.cond) for e in p.events if e.kind == 'assume']
+            conds = [cm.show0(e.cond) for e in p.events if e.kind == 'assume']
             keys = cm.assume_keys(p)
             r = cm.explicit_raise(p)
             if r is not None and p.exc['names'] == {exc}:
@@ -70,7 +70,7 @@ def run(ctx, eng):
                                   '_begin_new_stream')
             if creates:
                 i = p.index(creates[0])
-                before = [T.show(e.cond) for e in p.events[:i]
+                before = [cm.show0(e.cond) for e in p.events[:i]
                           if e.kind == 'assume']
                 live = '(%s in self.streams)' % sid in before
                 if not live and form_pass not in cm.assume_keys(p, i):
@@ -89,7 +89,7 @@ def run(ctx, eng):
         ok = False
         for p in cm.normal_paths(eng.I.run(fi)):
             cs = cm.calls_to(p, '_open_streams')
-            ok = len(cs) == 1 and T.show(cs[0].args[0]) == arg and \
+            ok = len(cs) == 1 and cm.show0(cs[0].args[0]) == arg and \
                 p.value == cs[0].result
         ctx.ob('FLOW.count', fi.qual, 'parity of counted streams', ok,
                'returns _open_streams(%s)' % arg, node=fi.node)
@@ -98,7 +98,7 @@ def run(ctx, eng):
     bad = []
     counted = moved = False
     for p in cm.normal_paths(paths):
-        conds = [T.show(e.cond) for e in p.events if e.kind == 'assume']
+        conds = [cm.show0(e.cond) for e in p.events if e.kind == 'assume']
         for e in p.events:
             if e.kind == 'store' and cm.attr_chain(e.container) == \
                     'self._closed_streams':
@@ -110,12 +110,12 @@ def run(ctx, eng):
     src_ok = False
     for p in cm.normal_paths(paths):
         conds = [e.cond for e in p.events if e.kind == 'assume']
-        shows = [T.show(c) for c in conds]
+        shows = [cm.show0(c) for c in conds]
         has_open = any(s.endswith('.open') and 'loopvar' in s
                        for s in shows)
         has_par = any('% 2) == remainder)' in s for s in shows)
         if has_open and has_par and p.value is not None and \
-                T.show(p.value) == '1':
+                cm.aff_is(p.value, {'phi(count)': 1}, 1):
             src_ok = True
     ctx.ob('FLOW.count', fi.qual, 'counts open streams of the parity',
            src_ok, 'count += 1 iff stream.open and stream_id %% 2 == '
